@@ -11,8 +11,21 @@ pub const TOP: &str = "c35_top";
 pub enum Base {
     /// testbench variable `t<j>`: changes between edges
     T,
-    /// `s<j>`: DUT flip-flop registering `t<j>`: changes AT the edge
+    /// `s<j>`: output port of a DUT flip-flop registering `t<j>` (changes AT the
+    /// edge; reaches the test module through the port connection)
     S,
+    /// `l<j>`: flip-flop in the test module itself registering `t<j>`: the
+    /// connection reads flip-flop storage directly
+    L,
+    /// `dut.h<j>`: DUT-internal flip-flop registering `t<j>`, reached by a
+    /// hierarchical reference
+    H,
+}
+
+impl Base {
+    pub fn is_ff(&self) -> bool {
+        !matches!(self, Base::T)
+    }
 }
 
 #[derive(Clone, Debug, PartialEq, Eq)]
@@ -20,8 +33,8 @@ pub enum Src {
     Plain(Base),
     /// `<base>[lo+n-1:lo]`
     Slice(Base, u32, u32),
-    /// `{t<j>, s<j>}`
-    Cat,
+    /// `{t<j>, <ff base>}`
+    Cat(Base),
     /// `~<base>` (cases without X/Z stimulus only)
     Not(Base),
     /// loop-back of component output `o<k>`
@@ -55,6 +68,8 @@ pub enum Arg {
 #[derive(Clone, Debug)]
 pub enum Step {
     Set(usize, Bv),
+    /// `en = <0|1>;`
+    En(bool),
     Clock(u32),
     Echo(Arg),
     Cat(Vec<Arg>),
@@ -74,6 +89,10 @@ pub enum Param {
 pub struct Case {
     /// stimulus contains X/Z literals: 4-state engines only
     pub xz: bool,
+    /// DUT, local flip-flops and the probe run on `clk & en`
+    pub gated: bool,
+    /// the probe drives X/Z on its outputs under 4-state engines
+    pub outxz: bool,
     pub seed: u64,
     pub ins: Vec<InSpec>,
     pub outs: Vec<OutSpec>,
@@ -150,6 +169,8 @@ fn gen_arg(d: &mut Draw) -> Arg {
 
 pub fn gen_case(d: &mut Draw, big: bool) -> Case {
     let xz = d.chance(2, 5);
+    let gated = d.chance(1, 4);
+    let outxz = xz || d.chance(2, 3);
     let seed = d.u64();
     let ni = d.usize_in(1, if big { 5 } else { 3 });
     let no = d.usize_in(1, if big { 4 } else { 3 });
@@ -162,7 +183,12 @@ pub fn gen_case(d: &mut Draw, big: bool) -> Case {
     let mut ins = vec![];
     for _ in 0..ni {
         let kind = d.weighted(&[4, 4, 2, 2, 1, 2]);
-        let base = |d: &mut Draw| if d.bool() { Base::S } else { Base::T };
+        let ffbase = |d: &mut Draw| match d.below(3) {
+            0 => Base::S,
+            1 => Base::L,
+            _ => Base::H,
+        };
+        let base = |d: &mut Draw| if d.chance(1, 4) { Base::T } else { ffbase(d) };
         let (tw, src, iw) = match kind {
             0 => {
                 let w = gen_width(d, 300);
@@ -170,7 +196,7 @@ pub fn gen_case(d: &mut Draw, big: bool) -> Case {
             }
             1 => {
                 let w = gen_width(d, 300);
-                (w, Src::Plain(Base::S), w)
+                (w, Src::Plain(ffbase(d)), w)
             }
             2 => {
                 let w = gen_width(d, 300).max(2);
@@ -180,7 +206,7 @@ pub fn gen_case(d: &mut Draw, big: bool) -> Case {
             }
             3 => {
                 let w = gen_width(d, 150);
-                (w, Src::Cat, 2 * w)
+                (w, Src::Cat(ffbase(d)), 2 * w)
             }
             4 if !xz => {
                 // an operator, not only bit routing: on the testbench variable only,
@@ -191,7 +217,7 @@ pub fn gen_case(d: &mut Draw, big: bool) -> Case {
             }
             4 => {
                 let w = gen_width(d, 300);
-                (w, Src::Plain(Base::S), w)
+                (w, Src::Plain(ffbase(d)), w)
             }
             _ => {
                 let k = d.below_usize(no);
@@ -221,6 +247,9 @@ pub fn gen_case(d: &mut Draw, big: bool) -> Case {
         .collect();
     // script
     let mut steps = vec![];
+    if gated {
+        steps.push(Step::En(d.chance(3, 4)));
+    }
     let nblocks = d.usize_in(2, if big { 8 } else { 5 });
     for blk in 0..nblocks {
         for (j, i) in ins.iter().enumerate() {
@@ -241,6 +270,9 @@ pub fn gen_case(d: &mut Draw, big: bool) -> Case {
             };
             steps.push(s);
         }
+        if gated && d.chance(1, 3) {
+            steps.push(Step::En(d.bool()));
+        }
         let n = match d.weighted(&[6, 2, 1]) {
             0 => 1,
             1 => 2,
@@ -250,6 +282,8 @@ pub fn gen_case(d: &mut Draw, big: bool) -> Case {
     }
     Case {
         xz,
+        gated,
+        outxz,
         seed,
         ins,
         outs,
@@ -294,20 +328,38 @@ pub fn lit(v: &Bv) -> String {
     }
 }
 
-fn base_name(b: &Base, j: usize) -> String {
+/// `inside_dut`: the name as seen from inside the DUT module (for `H`)
+fn base_name(b: &Base, j: usize, inside_dut: bool) -> String {
     match b {
         Base::T => format!("t{j}"),
         Base::S => format!("s{j}"),
+        Base::L => format!("l{j}"),
+        Base::H if inside_dut => format!("h{j}"),
+        Base::H => format!("dut.h{j}"),
     }
 }
 
 pub fn src_expr(s: &Src, j: usize) -> String {
+    src_expr_in(s, j, false)
+}
+
+fn src_expr_in(s: &Src, j: usize, inside_dut: bool) -> String {
+    let bn = |b: &Base| base_name(b, j, inside_dut);
     match s {
-        Src::Plain(b) => base_name(b, j),
-        Src::Slice(b, lo, n) => format!("{}[{}:{}]", base_name(b, j), lo + n - 1, lo),
-        Src::Cat => format!("{{t{j}, s{j}}}"),
-        Src::Not(b) => format!("~{}", base_name(b, j)),
+        Src::Plain(b) => bn(b),
+        Src::Slice(b, lo, n) => format!("{}[{}:{}]", bn(b), lo + n - 1, lo),
+        Src::Cat(b) => format!("{{t{j}, {}}}", bn(b)),
+        Src::Not(b) => format!("~{}", bn(b)),
         Src::Out(k) => format!("o{k}"),
+    }
+}
+
+impl Src {
+    pub fn base(&self) -> Option<&Base> {
+        match self {
+            Src::Plain(b) | Src::Slice(b, ..) | Src::Cat(b) | Src::Not(b) => Some(b),
+            Src::Out(_) => None,
+        }
     }
 }
 
@@ -339,9 +391,12 @@ pub fn render(c: &Case) -> Rendered {
     let mut dut_ports = String::new();
     let mut dut_ff = String::new();
     let mut dut_comb = String::new();
+    let mut dut_vars = String::new();
     let mut top_vars = String::new();
-    let mut dut_conn = vec!["clk".to_string()];
-    let mut comp_conn = vec!["clk".to_string()];
+    let mut top_ff = String::new();
+    let clk = if c.gated { "clk: clk_g" } else { "clk" };
+    let mut dut_conn = vec![clk.to_string()];
+    let mut comp_conn = vec![clk.to_string()];
     for (j, i) in c.ins.iter().enumerate() {
         let has_t = !matches!(i.src, Src::Out(_));
         if has_t {
@@ -351,11 +406,27 @@ pub fn render(c: &Case) -> Rendered {
             dut_conn.push(format!("t{j}"));
             dut_conn.push(format!("s{j}"));
         }
-        writeln!(dut_ports, "    a{j}: input logic<{}>,\n    m{j}: output logic<{}>,", i.iw, i.iw).unwrap();
-        writeln!(dut_ff, "        m{j} = a{j};").unwrap();
-        writeln!(top_vars, "    var m{j}: logic<{}>;", i.iw).unwrap();
         let e = src_expr(&i.src, j);
-        dut_conn.push(format!("a{j}: {e}"));
+        writeln!(top_vars, "    var m{j}: logic<{}>;", i.iw).unwrap();
+        match i.src.base() {
+            Some(Base::H) => {
+                // DUT-internal flip-flop; its mirror evaluates the same expression
+                // inside the DUT
+                writeln!(dut_vars, "    var h{j}: logic<{}>;", i.tw).unwrap();
+                writeln!(dut_ff, "        h{j} = t{j};").unwrap();
+                writeln!(dut_ports, "    m{j}: output logic<{}>,", i.iw).unwrap();
+                writeln!(dut_ff, "        m{j} = {};", src_expr_in(&i.src, j, true)).unwrap();
+            }
+            b => {
+                if b == Some(&Base::L) {
+                    writeln!(top_vars, "    var l{j}: logic<{}>;", i.tw).unwrap();
+                    writeln!(top_ff, "        l{j} = t{j};").unwrap();
+                }
+                writeln!(dut_ports, "    a{j}: input logic<{}>,\n    m{j}: output logic<{}>,", i.iw, i.iw).unwrap();
+                writeln!(dut_ff, "        m{j} = a{j};").unwrap();
+                dut_conn.push(format!("a{j}: {e}"));
+            }
+        }
         dut_conn.push(format!("m{j}"));
         comp_conn.push(format!("i{j}: {e}"));
     }
@@ -385,6 +456,7 @@ pub fn render(c: &Case) -> Rendered {
         format!("NO: {}", c.outs.len()),
         format!("NT: {}", c.params.len()),
         format!("SEED: 64'h{:x}", c.seed),
+        format!("XZ: {}", c.outxz as u32),
         format!(
             "RD: 64'h{:x}",
             c.ins.iter().enumerate().fold(0u64, |a, (j, i)| a | i.rd << (4 * j))
@@ -407,7 +479,7 @@ pub fn render(c: &Case) -> Rendered {
     let mut vars: Vec<String> = vec![];
     let mut body = String::new();
     let obs = observed(c);
-    let mut snap = |n: usize, body: &mut String, top_vars: &mut String, vars: &mut Vec<String>| {
+    let snap = |n: usize, body: &mut String, top_vars: &mut String, vars: &mut Vec<String>| {
         for (sig, w) in &obs {
             writeln!(top_vars, "    var y{n}_{sig}: logic<{w}>;").unwrap();
             writeln!(body, "        y{n}_{sig} = {sig};").unwrap();
@@ -431,6 +503,7 @@ pub fn render(c: &Case) -> Rendered {
     for st in &c.steps {
         match st {
             Step::Set(j, v) => writeln!(body, "        t{j} = {};", lit(v)).unwrap(),
+            Step::En(e) => writeln!(body, "        en = {};", *e as u32).unwrap(),
             Step::Clock(n) => {
                 if *n == 1 {
                     writeln!(body, "        clk.next();").unwrap();
@@ -474,9 +547,15 @@ pub fn render(c: &Case) -> Rendered {
             }
         }
     }
+    let gate = if c.gated { "    var en: logic;\n    let clk_g: '_ clock = clk & en;\n" } else { "" };
+    let top_ff = if top_ff.is_empty() {
+        String::new()
+    } else {
+        format!("    always_ff ({}) {{\n{top_ff}    }}\n", if c.gated { "clk_g" } else { "clk" })
+    };
     let code = format!(
-        "module C35Dut (\n    clk: input clock,\n{dut_ports}) {{\n    always_ff (clk) {{\n{dut_ff}    }}\n{dut_comb}}}\n\n\
-         #[test({TOP})]\nmodule {TOP} {{\n    inst clk: $tb::clock_gen;\n{consts}{top_vars}\n    inst dut: C35Dut (\n        {}\n    );\n\n    \
+        "module C35Dut (\n    clk: input clock,\n{dut_ports}) {{\n{dut_vars}    always_ff (clk) {{\n{dut_ff}    }}\n{dut_comb}}}\n\n\
+         #[test({TOP})]\nmodule {TOP} {{\n    inst clk: $tb::clock_gen;\n{gate}{consts}{top_vars}{top_ff}\n    inst dut: C35Dut (\n        {}\n    );\n\n    \
          inst {INST}: $comp::{} #(\n        {}\n    ) (\n        {}\n    );\n\n    initial {{\n{body}        $finish();\n    }}\n}}\n",
         dut_conn.join(",\n        "),
         probe::PROBE_NAME,
@@ -556,14 +635,12 @@ fn not(v: &Bv) -> Bv {
 }
 
 fn eval(st: &St, src: &Src, j: usize) -> Option<Bv> {
-    let base = |b: &Base| match b {
-        Base::T => st.t[j].clone(),
-        Base::S => st.s[j].clone(),
-    };
+    // s / l / dut.h are three flip-flops registering the same t<j>
+    let base = |b: &Base| if b.is_ff() { st.s[j].clone() } else { st.t[j].clone() };
     match src {
         Src::Plain(b) => base(b),
         Src::Slice(b, lo, n) => base(b).map(|v| v.slice(*lo, *n)),
-        Src::Cat => Some(st.t[j].clone()?.concat(&st.s[j].clone()?)),
+        Src::Cat(_) => Some(st.t[j].clone()?.concat(&st.s[j].clone()?)),
         Src::Not(b) => base(b).map(|v| not(&v)),
         Src::Out(k) => st.o[*k].clone(),
     }
@@ -590,8 +667,9 @@ pub fn model(c: &Case, fs: bool) -> Expectation {
     let drive = |st: &St, cycle: u64| -> Vec<Option<Bv>> {
         (0..no)
             .map(|k| {
-                let act = probe::out_action(c.seed, cycle, k as u32, c.outs[k].ow, fs, c.outs[k].wr);
-                if act.skip { st.o[k].clone() } else { Some(port_value(&act, c.outs[k].ow, fs)) }
+                let fsx = fs && c.outxz;
+                let act = probe::out_action(c.seed, cycle, k as u32, c.outs[k].ow, fsx, c.outs[k].wr);
+                if act.skip { st.o[k].clone() } else { Some(port_value(&act, c.outs[k].ow, fsx)) }
             })
             .collect()
     };
@@ -640,14 +718,22 @@ pub fn model(c: &Case, fs: bool) -> Expectation {
     let none_o = vec![None; no];
     snapshot(0, &st, &none_o, &none_o, &mut vars);
     let mut edge: u64 = 0;
+    let mut en = true;
+    let mut last_prev_o = none_o.clone();
     let mut nsnap = 0;
     let mut ncall = 0;
     for step in &c.steps {
         match step {
             Step::Set(j, v) => st.t[*j] = Some(v.clone()),
+            Step::En(e) => en = *e,
             Step::Clock(n) => {
-                let mut prev_o = st.o.clone();
+                let mut prev_o = last_prev_o.clone();
                 for _ in 0..*n {
+                    if !en {
+                        // gate closed: no edge for the DUT, the local flip-flops or
+                        // the component
+                        continue;
+                    }
                     edge += 1;
                     log.push(Exp::Cycle(edge));
                     let pre: Vec<Option<Bv>> = (0..ni).map(|j| eval(&st, &c.ins[j].src, j)).collect();
@@ -672,7 +758,12 @@ pub fn model(c: &Case, fs: bool) -> Expectation {
                     st = new;
                 }
                 nsnap += 1;
-                edge_snap.push((edge, nsnap));
+                if edge > 0 {
+                    // nothing has been clocked since hook `edge`: the mirror still
+                    // holds what it captured there
+                    edge_snap.push((edge, nsnap));
+                }
+                last_prev_o = prev_o.clone();
                 let next_o = drive(&st, edge + 1);
                 snapshot(nsnap, &st, &prev_o, &next_o, &mut vars);
             }
